@@ -52,7 +52,9 @@ func cmdFor(p *lang.Process) (err error) {
 
 	for {
 		if p.HasCancelled() {
-			return errors.New(errCancelled)
+			// `break`, `return` or ctrl+c: the loop ends quietly, the exit
+			// number is whatever cancelled it
+			return nil
 		}
 
 		fork := p.Fork(lang.F_PARENT_VARTABLE | lang.F_NO_STDIN | lang.F_CREATE_STDOUT)
